@@ -64,7 +64,11 @@ def judge(family, label, ops, res, baseline, nrec):
             if "|panic!(\"as_element" in sl or "|panic!(\"as_text" in sl:
                 # a shared accessor (as_element / as_text) panics for whoever called it with the wrong kind of child: the source line says nothing
                 # about the caller, so the input family and the shape class of the input are part of the key - another caller is another finding
-                sl = f"{sl[:60]}|{family}|{'to:' + label.split('->')[-1] if family == 'rename' else label_class(label)}"     # (renamed element: by the name it got - a text child under that name is what the accessor meets)
+                lc_ = label_class(label)
+                # renamed element: by the name it got (a text child under that name is what the accessor meets); deviations: by the deviation
+                # operators, without the construct they were applied to
+                cls_ = "to:" + label.split("->")[-1] if family == "rename" else lc_.split("|", 1)[1] if "|" in lc_ else lc_
+                sl = f"{sl[:60]}|{family}|{cls_}"
             out.append((f"C08|panic|{opclass(op)}|{sl}", f"{family} {label}: {opclass(op)} panicked at {r[1]}: {short(r[2] if len(r) > 2 else '', 120)}"))
             return out, True
         if r[0] in ("abort", "timeout"):
